@@ -368,8 +368,9 @@ def gen_vi(rng, n, history=False):
 HIST_POOL = ["one", "two words", "é日", "a b,c", "multi\nline\nentry", "x", "two words", "  lead"]
 
 
-def gen_vi_ops(rng):
+def gen_vi_ops(rng, text=None):
     """vi operators with a count before the operator AND before the motion, on a line with enough words"""
+    targets = [c for c in (text or "a e") if c != "\n"]
     ks = ["Esc", rng.choice(["0", "0", "$", "3", "w"])]
     if ks[-1] == "3":
         ks.append("w")
@@ -379,14 +380,18 @@ def gen_vi_ops(rng):
         op = rng.choice(["d", "d", "c", "y", "<", ">"])
         mot = rng.choice(["w", "w", "e", "b", "l", "h", "W", "E", "B", " ", "j", "k", op])
         ks += c1 + [op] + c2
-        if rng.random() < 0.15:
-            ks += [rng.choice(["f", "t", "F", "T"]), rng.choice(["a", " ", "e"])]
+        if rng.random() < 0.3:
+            ks += [rng.choice(["f", "t", "F", "T"]), rng.choice(targets)]
+        elif rng.random() < 0.08:
+            ks += [rng.choice([";", ","])]
         else:
             ks.append(mot)
         if op == "c":
             ks += [rng.choice(["X", "é"]), "Esc"]
         r = rng.random()
-        if r < 0.3:
+        if op == "y" and r < 0.7:
+            ks.append(rng.choice(["p", "P"]))
+        elif r < 0.3:
             ks.append(rng.choice(["p", "P", "u", "."]))
         elif r < 0.5:
             ks += [rng.choice(["0", "$", "w", "b"])]
@@ -404,7 +409,28 @@ def c01_cases(tier, seed):
         if rng.random() < 0.3:
             t = t.replace(" ", "\n", 2)
         k = rng.randint(0, len(t))
-        cases.append(Case(gen_vi_ops(rng), mode="vi", initial=(t[:k], t[k:]), timeout=0, prompt="> ", meta={}))
+        cases.append(Case(gen_vi_ops(rng, t), mode="vi", initial=(t[:k], t[k:]), timeout=0, prompt="> ", meta={}))
+    # words whose case mappings change the UTF-8 length (dotless i, ligature fi, I with dot, Kelvin sign, sharp s, n with
+    # apostrophe, dz digraph) under M-u / M-l / M-c with counts, followed by an insertion at the resulting cursor
+    cw = ["\u0131x", "\ufb01ne", "\u0130st", "\u212aelvin", "stra\u00dfe", "\u0149a", "\u01c6b", "ab", "X\u0131", "i\u0307"]
+    for _ in range(n // 8):
+        t = " ".join(rng.choice(cw) for _ in range(rng.randint(2, 6)))
+        k = rng.randint(0, len(t))
+        keys = []
+        for _ in range(rng.randint(2, 8)):
+            r = rng.random()
+            if r < 0.3:
+                keys.append(rng.choice(["M-b", "M-f", "C-a", "C-e", "C-b", "C-f"]))
+            elif r < 0.8:
+                if rng.random() < 0.3:
+                    keys += rng.choice([["M-2"], ["M-3"], ["M--"], ["M--", "M-2"]])
+                keys.append(rng.choice(["M-u", "M-l", "M-c"]))
+                if rng.random() < 0.6:
+                    keys.append(rng.choice(["X", "\u0131", "C-t", "C-_"]))
+            else:
+                keys.append(rng.choice(["\ufb01", "\u0130", "a", " "]))
+        keys.append("Enter")
+        cases.append(Case(keys, mode="emacs", initial=(t[:k], t[k:]), timeout=rng.choice(["none", 0]), prompt="> ", meta={}))
     for _ in range(n):
         mode = rng.choice(["emacs", "emacs", "vi"])
         hist = [rng.choice(HIST_POOL) for _ in range(rng.choice([0, 0, 1, 2, 3]))]
@@ -662,6 +688,9 @@ def c06_cases(tier, seed):
                     keys += rng.choice([["C-y"], ["C-y", "M-y"], ["C-y", "M-y", "M-y"], ["M-y"], ["M-2", "C-y"], ["M-3", "C-y", "M-y"]])
                 elif r < 0.6:
                     keys.append(rng.choice(["C-d", "Backspace", "C-h", "Delete"]))
+                elif r < 0.68:
+                    # commands the main loop handles itself (quoted insert, a search that is aborted or finds nothing)
+                    keys += rng.choice([["C-v", "x"], ["C-q", "é"], ["C-r", "C-g"], ["C-r", "q", "C-g"], ["C-r", "o", "C-g"], ["C-s", "C-g"]])
                 elif r < 0.75:
                     keys.append(rng.choice(EMACS_MOVES))
                 elif r < 0.9:
@@ -697,6 +726,7 @@ def c06_cases(tier, seed):
             keys += rng.choice([["C-y"], ["C-y", "M-y"], ["a", "C-k", "C-y"]]) + ["Enter"] if mode == "emacs" else ["Esc", "p", "Enter"]
         binds = [("F5", "yankpop")] if rng.random() < 0.15 and mode == "emacs" else []
         cases.append(Case(keys, mode=mode, reads=reads, binds=binds, initial=mk_initial(rng, 0.2),
+                          history=rng.choice([[], ["one", "two"]]),
                           timeout=0 if mode == "vi" else rng.choice(["none", 0]), prompt="> "))
     return cases
 
@@ -795,6 +825,23 @@ def c17_cases(tier, seed):
                  validator=("brackets" if helper and rng.random() < 0.3 else "none"),
                  completion=rng.choice(["circular", "list"]), cols=rng.choice([80, 80, 20]), meta=meta)
         cases.append(c)
+    for k in range(n // 8):
+        mode = rng.choice(["emacs", "emacs", "vi"])
+        prompt = rng.choice(["> ", "", "ab> "])
+        body = [rng.choice(["a", "b", " ", "x", "é", "日"]) for _ in range(rng.randint(1, 30))]
+        width = len(prompt) + sum(2 if ch == "日" else 1 for ch in body)
+        tail = [rng.choice(["C-b", "C-f", "C-a", "C-e", "Left", "Right", "x", "Backspace", "C-l", "C-k", "C-y"] if mode == "emacs" else
+                           ["Left", "Right", "Home", "End", "x", "Backspace", "Esc", "h", "l", "0", "$", "i", "a"])
+                for _ in range(rng.randint(2, 8))] + ["Enter"]
+        keys = body + tail
+        chunks = [key_bytes(kk) for kk in keys]
+        events = {}
+        for _ in range(rng.randint(1, 3)):
+            at = rng.randrange(max(1, len(body) - 2), len(keys))
+            events.setdefault(at, []).append(("winch", max(2, (width % 60 if rng.random() < 0.3 and width > 60 else width) + rng.choice([0, 0, 0, -1, 1, 2]))))
+        cases.append(Case(keys, mode=mode, history=[], timeout=0 if mode == "vi" else rng.choice(["none", 0]), prompt=prompt,
+                          reads=2, chunks=chunks, printer=rng.random() < 0.2, helper=False, cols=rng.choice([80, 40]),
+                          meta={"events": events}))
     return cases
 
 
